@@ -198,9 +198,126 @@ def run(rep, info, model, tier, seed):
     rep.families.append(dict(name="B:random-strings", cases=nB,
                              rule="grammar-aware random strings (valid chars of 1-4 bytes at range boundaries; inserted overlongs, surrogates, >U+10FFFF, stray tails, truncations, byte flips); distinct = distinct non-empty byte strings; judged by CPython strict decoding + an independent viability oracle"))
 
+    delivery_families(rep, model, tier, rnd)
     if not proof_ok:
         if not rep.violations:
             rep.broken("proof obligation props/C05.v no longer checks: %s" % (rep.coq_failure,))
+
+
+# ---------------------------------------------------------------- through the real session loop
+def delivery_families(rep, model, tier, rnd):
+    from . import fam, scen, simnet, ref6455
+    E = ref6455.encode_frame
+
+    def split_frames(payload, rnd, with_ctrl):
+        """text message as 1-5 frames cut anywhere (also inside a code point), control frames between fragments"""
+        n = rnd.choice([1, 2, 2, 3, 5])
+        pts = [0] + sorted(rnd.randrange(0, len(payload) + 1) for _ in range(n - 1)) + [len(payload)]
+        out = b""
+        for j in range(n):
+            out += E(1 if j == 0 else 0, payload[pts[j]:pts[j + 1]], fin=1 if j == n - 1 else 0)
+            if j < n - 1 and with_ctrl and rnd.random() < 0.6:
+                out += E(rnd.choice([9, 10]), b"c")
+        return out, n
+
+    scs = []
+    n = 1500 if tier == "quick" else 20000
+    for _ in range(n):
+        payload, label = gen_string(rnd)
+        with_ctrl = rnd.random() < 0.5
+        as_close = rnd.random() < 0.12 and len(payload) <= 123
+        if as_close:
+            body = E(8, b"\x03\xe8" + payload)
+            nfr = 1
+        else:
+            body, nfr = split_frames(payload, rnd, with_ctrl)
+        before = E(2, b"pre") if rnd.random() < 0.3 else b""
+        stream = scen.HANDSHAKE + before + body + E(2, b"post")
+        chunks = scen.chunkings(rnd, stream, rnd.choice(["one", "random", "small", "bytes"]))
+        sc = dict(cfg=simnet.default_cfg(), steps=scen.steps_from_chunks(chunks), keys=scen.keys(rnd, 8), key16=scen.KEY16)
+        try:
+            payload.decode("utf-8")
+            sc["_valid"] = True
+        except UnicodeDecodeError:
+            sc["_valid"] = False
+        sc["_payload"] = payload
+        sc["_close"] = as_close
+        sc["_shape"] = (label, nfr, with_ctrl, as_close)
+        scs.append(sc)
+        rep.count("delivery.kind", label)
+        rep.count("delivery.frames", nfr)
+        rep.count("delivery.valid", sc["_valid"])
+
+    def oracle(sc, tr, extra):
+        if extra.get("escaped"):
+            return ["exception %s escaped the iterator" % extra["escaped"]]
+        p = sc["_payload"]
+        texts = [it[1] for it in tr if it[0] == 0 and it[1][0] == 6]
+        closings = [it[1] for it in tr if it[0] == 0 and it[1][0] == 10]
+        pes = [it for it in tr if it[0] == 0 and it[1][0] == 13]
+        if sc["_valid"]:
+            if pes:
+                return ["well-formed UTF-8 %s was rejected with a ProtocolError" % p.hex()[:80]]
+            if sc["_close"]:
+                if not closings or closings[0][2] != p:
+                    return ["close reason %s was not delivered exactly (got %r)" % (p.hex()[:80], closings[:1])]
+            elif texts != [[6, p]]:
+                return ["text %s was not delivered exactly once as its exact decoding (Text events: %r)" % (p.hex()[:80], [t[1].hex()[:60] for t in texts])]
+        else:
+            if len(pes) != 1:
+                return ["ill-formed UTF-8 %s produced %d ProtocolError events (expected one)" % (p.hex()[:80], len(pes))]
+            if texts:
+                return ["a Text event was produced for ill-formed UTF-8 %s" % p.hex()[:80]]
+            if sc["_close"] and closings:
+                return ["a Closing event was produced for a close reason that is not UTF-8: %s" % p.hex()[:80]]
+        return []
+
+    fam.run_family(rep, model, "C05:text-delivery", scs, oracle, project=fam.no_waits,
+                   rule="a text message (or close reason) with a generated payload (valid / overlong / surrogate / >U+10FFFF / truncated / byte-flip / random), cut into 1-5 frames anywhere incl. inside a code point, optionally with Ping/Pong between fragments, delivered in one read / random reads / byte-at-a-time; Text(payload) iff CPython's strict decoder accepts the payload, else exactly one ProtocolError and no Text")
+
+    # ---- fail-fast: deliver up to and including the offending byte, then the peer goes silent
+    ff = []
+    nff = 600 if tier == "quick" else 8000
+    tries = 0
+    while len(ff) < nff and tries < nff * 20:
+        tries += 1
+        payload, label = gen_string(rnd)
+        off = first_offending(payload)
+        if off is None:
+            continue
+        payload = payload + b"trailing bytes that never arrive"
+        mode = rnd.choice(["single", "fragmented", "ctrl-between", "ctrl-between"])
+        if mode == "single":
+            body = E(1, payload)
+            hdr = 2 if len(payload) < 126 else 4
+            cut = hdr + off + 1
+        else:
+            # first fragment: a clean prefix strictly before the offending char; second: the rest
+            k = rnd.randrange(0, off + 1)
+            f1 = E(1, payload[:k], fin=0)
+            mid = E(9, b"p") if mode == "ctrl-between" else b""
+            f2 = E(0, payload[k:], fin=1)
+            hdr2 = 2 if len(payload) - k < 126 else 4
+            body = f1 + mid + f2
+            cut = len(f1) + len(mid) + hdr2 + (off - k) + 1
+        stream = scen.HANDSHAKE + body[:cut]
+        chunks = scen.chunkings(rnd, stream, rnd.choice(["one", "random", "small"]))
+        sc = dict(cfg=simnet.default_cfg(), steps=scen.steps_from_chunks(chunks, end=None) + [("timeout", 5120)] * 2, keys=scen.keys(rnd, 8), key16=scen.KEY16)
+        sc["_mode"] = mode
+        sc["_payload"] = payload[:off + 1]
+        ff.append(sc)
+        rep.count("failfast.mode", mode)
+
+    def ff_oracle(sc, tr, extra):
+        if extra.get("escaped"):
+            return ["exception %s escaped the iterator" % extra["escaped"]]
+        pes = [it for it in tr if it[0] == 0 and it[1][0] == 13]
+        if len(pes) != 1:
+            return ["the first offending byte of an uncompressed text message (%s, %s) has arrived but %d ProtocolError events were raised before the peer went silent" % (sc["_payload"].hex()[-40:], sc["_mode"], len(pes))]
+        return []
+
+    fam.run_family(rep, model, "C05:fail-fast", ff, ff_oracle, project=fam.no_waits,
+                   rule="uncompressed text whose payload has a first offending byte (computed by an independent viability oracle): the stream is delivered up to and including that byte -- single frame, fragmented, or with a Ping between the fragments -- and then stalls; the ProtocolError must already have been raised")
 
 
 def _judge_validator(rep, s, bs, impl, mod, fam):
